@@ -10,6 +10,9 @@ CLAIMED = {
  "C12": ("literal-table extraction and comparison (twin tables, codon-keyed NCBI oracle, complement closure), truth-table comparison of extracted option guards, keyword pass-through parity",
          "Static: decides the data clauses exhaustively (27 code tables x 2 modules against each other and the NCBI table; 4 complement tables closed; codon order TCAG) and, for the option clauses, that every translation entry point reads its options, that sibling entry points trim terminal stops under the same condition on the full truth table, and that collection wrappers forward the options. The byte/str translation code itself is not decided.",
          "Trusts python ast, the constant folder, the embedded NCBI deviations table and that k-mer alphabets enumerate the product of monomers in order."),
+ "C17": ("constant propagation through the WHERE builder + exhaustive enumeration of order types; SQL column-set agreement; constant-offset domain along def-use chains",
+         "Static: the interval predicate text the code assembles is extracted by constant propagation, parsed, and compared with half-open overlap / containment on every weak ordering of the integers involved (exhaustive), for every kind of accompanying condition (also decides that the assembled WHERE is well formed); every SQL builder takes its WHERE from that one function with the flags forwarded; spans are never written without start/stop; GFF and GenBank coordinates reach the store with net offsets (-1, 0). Equality with a linear scan over arbitrary record sets, and union/copy/pickle multiset preservation, are not decided.",
+         "Trusts python ast, the mini constant propagator (anything it cannot fold is reported unresolved), SQLite integer comparison semantics; features and windows are assumed non-empty."),
 }
 
 NOT_APPLICABLE = {
